@@ -77,12 +77,13 @@ def rowBuffers (storage offsets : Bytes) (numCols : Nat) (wide : Bool) : PyM (Li
 
 /-! ### tiles -/
 
-/-- the `while tile_idx <= max_tile_idx` loop of `recalculate_table_data`: for every tile
-    index `0 .. len(data) >> 8` the rows `data[row_start:row_end]`. -/
+/-- the `while tile_idx <= max_tile_idx` loop of `recalculate_table_data` (as repaired:
+    `max_tile_idx = (len(data) - 1) >> 8`, which is -1 for an empty list): for every tile
+    index `0 .. (len(data) - 1) >> 8` the rows `data[row_start:row_end]`. -/
 def tileLoop {α} (data : List α) : Nat → Nat → List (Nat × List α)
   | 0, _ => []
   | fuel + 1, tileIdx =>
-    if tileIdx ≤ data.length >>> 8 then
+    if data.length ≠ 0 ∧ tileIdx ≤ (data.length - 1) >>> 8 then
       let rowStart := tileIdx * Gen.MAX_TILE_SIZE
       let numRows := if data.length - rowStart > Gen.MAX_TILE_SIZE then Gen.MAX_TILE_SIZE
                      else data.length - rowStart
